@@ -89,6 +89,7 @@ type Structural struct {
 	Fields string
 	Except string
 	Types  []string // type names (unqualified)
+	NoMethods []string // second form: the named types (Types) must not have any of these methods (value or pointer receiver)
 	File   string
 	Line   int
 }
@@ -114,7 +115,7 @@ type Contracts struct {
 
 func fkey(pkg, name string) string { return pkg + "::" + name }
 
-var kwRe = regexp.MustCompile(`^(func|spec|lemma|axiom|uf|typeinv|structural|in|fields|except|types|requires|ensures|invariant|loop|assigns|pure|inline|trusted|maypanic|nosafe|abstract|fresh|at|props|finding|noeffect|freshonly|opaque|assumes|after)\b`)
+var kwRe = regexp.MustCompile(`^(func|spec|lemma|axiom|uf|typeinv|structural|in|fields|except|types|nomethods|requires|ensures|invariant|loop|assigns|pure|inline|trusted|maypanic|nosafe|abstract|fresh|at|props|finding|noeffect|freshonly|opaque|assumes|after)\b`)
 
 // loadContractFile parses one file. pkgPath is the import path of the package it annotates.
 func (cs *Contracts) loadContractFile(path, pkgPath string) error {
@@ -189,6 +190,8 @@ func (cs *Contracts) loadContractFile(path, pkgPath string) error {
 				curStruct.Except = rest
 			case "types":
 				curStruct.Types = append(curStruct.Types, strings.Fields(rest)...)
+			case "nomethods":
+				curStruct.NoMethods = append(curStruct.NoMethods, strings.Fields(rest)...)
 			default:
 				handled = false
 				curStruct = nil
